@@ -76,9 +76,11 @@ def install_codec(ctx, prefix="codec"):
     def post_decode(self, args, kwargs, result, exc, old):
         if not args or not isinstance(args[0], (bytes, bytearray)):
             return
-        data, dt = bytes(args[0]), self.data_type
+        data, dt = (old if old is not None else bytes(args[0])), self.data_type
         name = R.NAMES.get(dt, hex(dt) if isinstance(dt, int) else str(dt))
         case = {"op": "decode_raw", "type": name, "data": data}
+        if old is not None and bytes(args[0]) != old:
+            ctx.violation(f"decode-mutates-input:{name}", f"decode_raw changed the caller's buffer from {old.hex()} to {bytes(args[0]).hex()}", case)
         if dt in R.NUMERIC or dt == R.BOOLEAN:
             ctx.count(prefix + ".decode_num")
             right = len(data) * 8 == R.width(dt)
@@ -119,7 +121,8 @@ def install_codec(ctx, prefix="codec"):
                               {"op": "len", "type": R.NAMES[dt]})
 
     return [contracts.install(ODVariable, "encode_raw", post_encode),
-            contracts.install(ODVariable, "decode_raw", post_decode),
+            contracts.install(ODVariable, "decode_raw", post_decode,
+                              pre=lambda self, *a, **k: bytes(a[0]) if a and isinstance(a[0], bytearray) else None),
             contracts.install(ODVariable, "__len__", post_len)]
 
 
